@@ -26,7 +26,7 @@ func sleepToPhase(periodS int64, phaseMs int64) {
 	if d <= 0 {
 		d += p
 	}
-	time.Sleep(time.Duration(d) * time.Millisecond)
+	advanceClock(time.Duration(d) * time.Millisecond)
 }
 
 var c08Accept = []int64{0, 1, -1, 30, -30, 59, -59, 60, -60}
@@ -51,7 +51,7 @@ func c08SkewCase(c *Ctx) *Result {
 	case "minute":
 		sleepToPhase(60, offMs)
 	default:
-		time.Sleep(time.Duration(r.Intn(240000)) * time.Millisecond)
+		advanceClock(time.Duration(r.Intn(240000)) * time.Millisecond)
 	}
 	params := map[string]interface{}{"udp": udp, "boundary": boundary, "offset_ms": offMs}
 	c.Out.Start("C08", fmt.Sprintf("C08-skew/%d/%d", c.Seed, c.Idx), c.Seed, params)
